@@ -53,13 +53,20 @@ pub fn features(r: &Relation) -> Vec<String> {
                     out.insert("reduce.ungrouped.null-on-empty-aggregate".to_string());
                 }
             }
+            Relation::Map(m) => {
+                if m.limit().is_some() || m.offset().is_some() {
+                    out.insert("map.limit-or-offset".to_string());
+                }
+            }
             Relation::Join(j) => {
                 let (kind, on) = match j.operator() {
                     JoinOperator::LeftOuter(e) => ("left", Some(e)),
                     JoinOperator::RightOuter(e) => ("right", Some(e)),
                     JoinOperator::FullOuter(e) => ("full", Some(e)),
-                    _ => ("", None),
+                    JoinOperator::Inner(_) => ("inner", None),
+                    JoinOperator::Cross => ("cross", None),
                 };
+                out.insert(format!("join.{kind}"));
                 if let Some(on) = on {
                     if equates_a_unique_column(on, j.left(), j.right()) {
                         out.insert(format!("join.{kind}.on-unique-key"));
